@@ -2,7 +2,7 @@
 From Coq Require Import List ZArith Bool Permutation Sorted.
 From Coq.Strings Require Import Byte.
 Import ListNotations.
-From SV Require Import Text G_gff C02_Model C02_Lemmas C02_Order C02_Line C02_Score C02_Feat C02_Read C02_Fix C02_Cycle C02_Cycle2 C02_Harness C02_Lenient C02_Third C02_Xsv.
+From SV Require Import Text G_gff C02_Model C02_Lemmas C02_Order C02_Line C02_Score C02_Feat C02_Read C02_Fix C02_Cycle C02_Cycle2 C02_Harness C02_Lenient C02_Third C02_Xsv C02_Opts C02_Disp.
 Local Open Scope Z_scope.
 
 (* percent-encoding is undone exactly, for every byte string *)
@@ -269,6 +269,68 @@ Theorem C02_xrecord_table : forall ft names row ty a b sd, xrecord_s ft names ro
 Proof. exact xrecord_table. Qed.
 Print Assumptions C02_xrecord_table.
 
+(* ---- options of the GFF reader and writer (round 7) ---- *)
+(* filt_fast=text: the file is read as if the lines that do not contain the text (case-insensitive) were not there *)
+Theorem C02_read_filt_fast : forall fl ff d ls acc id cm,
+  read_lines_o (mkRopts fl (Some ff) d) ls acc id cm = read_lines_o (mkRopts fl None d) (filter (passes_fast ff) ls) acc id cm.
+Proof. exact read_o_fast. Qed.
+Print Assumptions C02_read_filt_fast.
+
+(* filt=[types]: the file is read as if the data lines of other types (default_ftype standing in for '.') were not there;
+   lines without nine columns are an error with and without the filter *)
+Theorem C02_read_filt : forall x r ff d ls acc id cm,
+  read_lines_o (mkRopts (Some (x :: r)) ff d) ls acc id cm =
+  read_lines_o (mkRopts None ff d) (filter (passes_filt (x :: r) d) ls) acc id cm.
+Proof. exact read_o_filt. Qed.
+Print Assumptions C02_read_filt.
+
+Theorem C02_read_filt_empty : forall ff d ls acc id cm,
+  read_lines_o (mkRopts (Some []) ff d) ls acc id cm = read_lines_o (mkRopts None ff d) ls acc id cm.
+Proof. exact read_o_filt_empty. Qed.
+Print Assumptions C02_read_filt_empty.
+
+(* comments=[]: exactly the comment and blank lines before ##FASTA that filt_fast lets through, in file order *)
+Theorem C02_read_comments : forall fl ff d ls acc id cm fs cs,
+  read_lines_o (mkRopts fl ff d) ls acc id cm = Some (fs, cs) ->
+  cs = rev cm ++ filter (fun l => fast_ok ff l && blankish l) (before_fasta ls).
+Proof. exact comments_spec. Qed.
+Print Assumptions C02_read_comments.
+
+(* header=...: a header text made of comment / blank lines does not change what is read back *)
+Theorem C02_header_ignored : forall hl x, Forall (fun l => has x0a l = false) hl -> Forall (fun l => skippable l = true) hl ->
+  match write_gff_hdr (concat (map (fun l => l ++ nl) hl)) x, write_gff_h x with
+  | Some w, Some w0 => read_gff w = read_gff w0
+  | None, None => True
+  | _, _ => False
+  end.
+Proof. exact header_ignored_w. Qed.
+Print Assumptions C02_header_ignored.
+
+(* ---- read_fts / write_fts dispatch (round 7) ---- *)
+(* fmt is case-insensitive: 'GFF', 'Gff' and 'gff' name the same format *)
+Theorem C02_fmt_case_insensitive : forall s1 s2, lower s1 = lower s2 -> fmt_key s1 = fmt_key s2.
+Proof. exact fmt_key_same_lower. Qed.
+Print Assumptions C02_fmt_case_insensitive.
+
+(* over the regenerated registry: gff, tsv, csv are found by name and by their own extension, fmt wins over the extension, and an
+   extension in another spelling is not recognised (OSError: format cannot be detected) *)
+Theorem C02_dispatch_names : forall f,
+  fmt_key (fmt_name f) = Some f /\ resolve_w None (fmt_name f) = inl f /\
+  (forall e, resolve_w (Some (fmt_name f)) e = inl f) /\
+  resolve_w None (map (fun c => match c with "g" => "G" | "t" => "T" | "c" => "C" | _ => c end%byte) (fmt_name f)) = inr (bs "OSError"%bs).
+Proof. exact dispatch_names. Qed.
+Print Assumptions C02_dispatch_names.
+
+(* TSV / CSV through write_fts and read_fts, fmt in any spelling, default separator of the format: the statement of C02_xsv_total *)
+Theorem C02_dispatch_xsv_roundtrip : forall s1 s2 ext f names x, fmt_key s1 = Some f -> fmt_key s2 = Some f -> f <> FGff ->
+  names_ok (default_sep f) names = true -> names <> [] -> forallb (feat_clean (default_sep f) names) x = true ->
+  exists t, write_fts_m (Some s1) ext None names x = inl t /\
+    read_fts_m s2 None t =
+    if sel_ok names then VL [VS (fmt_name f); v_xrecs (map (xspec None names) x)]
+    else match x with [] => VL [VS (fmt_name f); v_xrecs []] | _ => key_error end.
+Proof. exact dispatch_xsv_roundtrip. Qed.
+Print Assumptions C02_dispatch_xsv_roundtrip.
+
 (* region excluded from the round-trip clauses, with its witness: open finding F39 (firstloc_overrides) *)
 Theorem C02_firstloc_overrides_refuted :
   exists x, wf_C02 x = true /\ forallb normalised x = false /\ fix2 x = false /\ roundtrip_ok x = false.
@@ -328,3 +390,16 @@ Proof. exact ex_table_ok. Qed.
 
 Example C02_witness_keys_str : keys_of (KStr (bs " type  start len "%bs)) = [k_type; n_start; n_len].
 Proof. exact eq_refl. Qed.
+
+Example C02_witness_header : Forall (fun l => has x0a l = false) ex_header /\ Forall (fun l => skippable l = true) ex_header.
+Proof. exact ex_header_ok. Qed.
+
+Example C02_witness_filters :
+  passes_fast (bs "cds"%bs) (ex_gline (bs "CDS"%bs)) = true /\ passes_fast (bs "cds"%bs) (ex_gline (bs "gene"%bs)) = false /\
+  passes_filt [bs "CDS"%bs] None (ex_gline (bs "CDS"%bs)) = true /\ passes_filt [bs "CDS"%bs] None (ex_gline (bs "gene"%bs)) = false /\
+  passes_filt [bs "CDS"%bs] (Some (bs "CDS"%bs)) (ex_gline dot) = true /\ passes_filt [bs "CDS"%bs] None (ex_gline dot) = false.
+Proof. exact ex_filters_ok. Qed.
+
+Example C02_witness_dispatch : fmt_key (bs "TsV"%bs) = Some FTsv /\ fmt_key (bs "tsv "%bs) = None /\
+  names_ok (default_sep FCsv) [n_start; k_type; n_len] = true /\ forallb (feat_clean (default_sep FCsv) [n_start; k_type; n_len]) ex_table = true.
+Proof. exact (conj eq_refl (conj eq_refl (conj eq_refl eq_refl))). Qed.
